@@ -121,7 +121,14 @@ def make_config(at, P, variant):
         P.settings.update_time_vector(dt=0.5)
     elif variant == "parscen":
         target = None
+        # prefer a FUNCTION parameter (the overwrite then carries a skip_function window into the model), else a data parameter
         for name, par in parset.pars.items():
+            if name in P.framework.pars.index and par.ts and isinstance(P.framework.pars.at[name, "function"], str) and P.framework.transitions.get(name) and not str(P.framework.pars.at[name, "function"]).startswith(("SRC_", "TGT_")):
+                target = name
+                break
+        for name, par in parset.pars.items():
+            if target is not None:
+                break
             if name in P.framework.pars.index and par.ts and all(ts.has_data for ts in par.ts.values()):
                 target = name
                 break
@@ -129,6 +136,8 @@ def make_config(at, P, variant):
             target = list(parset.pars.keys())[0]
         pop = list(parset.pars[target].ts.keys())[0]
         v0 = float(parset.pars[target].interpolate(start + 2, pop)[0])
+        if not np.isfinite(v0):
+            v0 = 0.05  # function parameter without databook values
         scen = at.ParameterScenario(name="scen", scenario_values={target: {pop: {"t": [start + 2, start + 4], "y": [v0, 0.8 * v0]}}})
         parset = scen.get_parset(parset, P)
     return parset, progset, instr, scen
